@@ -1,5 +1,6 @@
 import RsMatterVerif.Model.Codec.Buf
 import RsMatterVerif.Model.Codec.DerRead
+import RsMatterVerif.Model.Codec.CmsCd
 import Driver.C17U
 /-!
 C17 driver, DER-based decoders (case kinds `der`, `dersig`, `cd`, `x509`, `csr`; harness: `c17_x509.rs`).
@@ -241,16 +242,19 @@ def cvalSpec (f : List Nat) (skid : String) (kv : String → Option String) : Op
     some (decide (base ∧ chain = true ∧ paaOk))
   | _ => none
 
+/-- `CmsSignedData::parse` recomputed with the model (`Model/Codec/CmsCd.lean`) -/
+def cmsShow (r : Except E Cms) : String :=
+  match r with
+  | .ok c => s!"ok kid={atStr c.kidOff c.kid.length} cd={atStr c.cdOff c.cd.length} sig={hex c.sig}"
+  | .error e => derErr e
+
 def stepCd (op : List String) (out : String) : String :=
   if crashed out then "ORA certification-declaration decoder panicked or did not terminate" else
   match op with
   | ["cms", h] =>
     match unhex h with
     | none => "BAD hex"
-    | some bs =>
-      match slicesInside bs.length out with
-      | some e => s!"ORA {e}"
-      | none => "ok"
+    | some bs => verdict (cmsShow (cmsParse bs)) out (slicesInside bs.length out)
   | ["cdec", _] => match cdSane out with | some e => s!"ORA {e}" | none => "ok"
   | ["cver", _, _] => match cdSane out with | some e => s!"ORA {e}" | none => "ok"
   | "crt" :: kvs =>
@@ -265,6 +269,7 @@ def stepCd (op : List String) (out : String) : String :=
         | some e, _ => s!"ORA {e}"
         | _, some e => s!"ORA {e}"
         | none, none =>
+          if cmsShow (cmsParse msg) ≠ cmsRes then s!"DIS {cmsShow (cmsParse msg)}" else
           -- TLV content round trip
           let o1 : Option String := match cdWant kv with
             | some want => if decRes = want then none else some s!"CD round trip: want [{want}] got [{decRes}]"
